@@ -9,6 +9,7 @@ let int_of_z (x:z) : int = match x with Z0 -> 0 | Zpos p -> int_of_pos p | Zneg 
 
 let table : (string * (z list -> z list)) list = [
   ("c14", run_c14);
+  ("c13", run_c13);
 ]
 
 let () =
